@@ -235,3 +235,66 @@ func vh_C18_pages_tagged() {
 	alloc.ReleasePages(oid)
 	vAssert(alloc.countUsedPages() == 0, "releasing the order id frees everything the request took")
 }
+
+// differential over every request kind: the same request bytes received into
+// a fresh buffer (allocator off) and into a recycled, dirty page (allocator
+// on), decoded and served by the real worker step under the same environment
+// answers, give byte-identical responses - both servers. (The READ branch with
+// symbolic lengths and limits is vh_C18_read_differential.)
+func vh_C18_request_differential() { vReqDiff(vChoice(vNKinds)) }
+
+func vReqDiff(k int) {
+	vErrKinds, vHErrKinds = 2, 2
+	pkt := vSymRequest(k)
+	kn := vKindName(pkt)
+	if _, isRead := pkt.(*sshFxpReadPacket); isRead {
+		return // symbolic lengths and limits: vh_C18_read_differential
+	}
+	if od, ok := pkt.(*sshFxpOpendirPacket); ok {
+		// (the "not a directory" status quotes the path: comparing two messages of
+		// symbolic length byte by byte is a 10 s query; a concrete path here)
+		od.Path = "/d"
+	}
+	m, ok := pkt.(interface{ MarshalBinary() ([]byte, error) })
+	if !ok {
+		return // (the server-side wrapper of extended requests has no encoder; see vh_C02_*_loop_to_reply)
+	}
+	wire, merr := m.MarshalBinary()
+	vAssert(merr == nil, kn+": marshals")
+	n := len(wire) - 4
+	wire[0], wire[1], wire[2], wire[3] = byte(n>>24), byte(n>>16), byte(n>>8), byte(n)
+	rs := vNondetBool()
+	vTape = nil
+	run := func(withAlloc bool) []byte {
+		vEnvReset()
+		vHReset()
+		var alloc *allocator
+		if withAlloc {
+			alloc = newAllocator()
+			alloc.available = append(alloc.available, vHavocBytes(maxMsgLength))
+		}
+		typ, body, err := recvPacket(&vReader{data: wire}, alloc, 1)
+		vAssert(err == nil, kn+": the frame is received")
+		p, err := makePacket(rxPacket{typ, body})
+		vAssert(err == nil && p != nil, kn+": the request decodes")
+		if rs {
+			s := vNewRequestServer(Handlers{vH{}, vHOpenFile{}, vHCmdAll{}, vHListAll{}}, "/")
+			s.pktMgr.alloc = alloc
+			vOpenRequestOfKind(s, 2)
+			r, err := vRSStep(s, p)
+			vAssert(err == nil, kn+": worker continues")
+			return vRespBytes(r)
+		}
+		s := vNewServer(false, "")
+		s.pktMgr.alloc = alloc
+		s.openFiles["1"] = &vMFile{name: "/o", data: []byte{1, 2, 3}}
+		s.handleCount = 1
+		r, _, err := vWorkerStep(s, p)
+		vAssert(err == nil, kn+": worker continues")
+		return vRespBytes(r)
+	}
+	off := run(false)
+	on := run(true)
+	vAssert(vBytesEq(off, on), kn+": allocator on/off give byte-identical responses")
+	vEmit("typ", int(on[4]))
+}
